@@ -149,7 +149,7 @@ EXPORT errno_t _strstr_s_chk(char *dest, rsize_t dmax, const char *src,
         len = slen;
         dlen = dmax;
 
-        while (src[i] && dlen) {
+        while (dlen && src[i]) {
 
             /* not a match, not a substring */
             if (dest[i] != src[i]) {
@@ -161,7 +161,7 @@ EXPORT errno_t _strstr_s_chk(char *dest, rsize_t dmax, const char *src,
             len--;
             dlen--;
 
-            if (src[i] == '\0' || !len) {
+            if (!len || src[i] == '\0') {
                 *substringp = dest;
                 return RCNEGATE(EOK);
             }
